@@ -2,6 +2,7 @@ import ChiModel.ShapeEta
 import ChiModel.LogLikS1
 import ChiModel.Reduced
 import ChiModel.Labels
+import ChiModel.ReducedResize
 import ChiProofs.Props.C02
 import ChiProofs.Props.C08
 import Mathlib.Data.List.Nodup
@@ -208,3 +209,174 @@ example : label [none, some "patient 7", none] = some ["Log-likelihood 1", "pati
 end LabelsSec
 
 end ChiModel
+
+/-! ## resizing a reduced population model (`ReducedPopulationModel.set_n_ids`) -/
+namespace ChiModel.Reduced
+variable {α : Type}
+
+theorem lookupLast_nil (n : String) : lookupLast ([] : Req α) n = none := by
+  simp [lookupLast]
+
+theorem lookupLast_cons_of_notin (d : Req α) (k : String) (v : Option α) (n : String)
+    (h : ∀ p ∈ d, p.1 ≠ n) : lookupLast ((k, v) :: d) n = if k = n then some v else none := by
+  unfold lookupLast
+  rw [List.reverse_cons, List.find?_append]
+  have hnone : d.reverse.find? (fun p => p.1 == n) = none := by
+    rw [List.find?_eq_none]
+    intro p hp
+    have := h p (List.mem_reverse.mp hp)
+    simpa using this
+  rw [hnone]
+  by_cases hk : k = n <;> simp [hk]
+
+theorem lookupLast_cons_ne (d : Req α) (k : String) (v : Option α) (n : String) (hk : k ≠ n) :
+    lookupLast ((k, v) :: d) n = lookupLast d n := by
+  unfold lookupLast
+  rw [List.reverse_cons, List.find?_append]
+  cases h : d.reverse.find? (fun p => p.1 == n) with
+  | some x => simp
+  | none => simp [hk]
+
+theorem fixedPairs_keys (names : List String) : ∀ (c : List (Bool × α)) (p : String × Option α),
+    p ∈ fixedPairs names c → p.1 ∈ names := by
+  induction names with
+  | nil => intro c p h; cases c <;> simp [fixedPairs] at h
+  | cons n ns ih =>
+    intro c p h
+    cases c with
+    | nil => simp [fixedPairs] at h
+    | cons x cs =>
+      obtain ⟨b, v⟩ := x
+      cases b with
+      | true =>
+        simp only [fixedPairs, List.mem_cons] at h
+        rcases h with h | h
+        · subst h; simp
+        · exact List.mem_cons_of_mem _ (ih cs p h)
+      | false =>
+        simp only [fixedPairs] at h
+        exact List.mem_cons_of_mem _ (ih cs p h)
+
+theorem fixedPairs_allFree (g : α) : ∀ ks : List String,
+    fixedPairs ks (ks.map (fun _ => (false, g))) = ([] : Req α)
+  | [] => rfl
+  | _ :: ks => by
+    show fixedPairs ks (ks.map (fun _ => (false, g))) = []
+    exact fixedPairs_allFree g ks
+
+/-- the remembered dictionary says, for every name: its old fixed value if it was a fixed name of the old list,
+    nothing otherwise -/
+theorem lookupLast_fixedPairs (f : String → Option α) :
+    ∀ (names : List String) (c : List (Bool × α)), names.Nodup → AllGood f names c → ∀ n,
+      lookupLast (fixedPairs names c) n = if n ∈ names then (f n).map some else none := by
+  intro names
+  induction names with
+  | nil => intro c _ h n; cases c <;> simp [fixedPairs, lookupLast_nil]
+  | cons k ks ih =>
+    intro c hnd h n
+    cases c with
+    | nil => simp [AllGood] at h
+    | cons x cs =>
+      obtain ⟨b, v⟩ := x
+      obtain ⟨hk, hks⟩ := List.nodup_cons.mp hnd
+      obtain ⟨⟨hb, hv⟩, hrest⟩ := h
+      have ihn := ih cs hks hrest n
+      cases b with
+      | true =>
+        simp only [fixedPairs]
+        by_cases hkn : k = n
+        · subst hkn
+          rw [lookupLast_cons_of_notin _ _ _ _ (fun p hp he => hk (by rw [← he]; exact fixedPairs_keys ks cs p hp))]
+          simp only [if_true, List.mem_cons, true_or]
+          have : (f k).isSome = true := by simpa using hb.symm
+          obtain ⟨w, hw⟩ := Option.isSome_iff_exists.mp this
+          have hvw : v = w := hv w hw
+          rw [hw, hvw]; rfl
+        · rw [lookupLast_cons_ne _ _ _ _ hkn, ihn]
+          have : (n ∈ k :: ks) ↔ n ∈ ks := by
+            simp only [List.mem_cons]; constructor
+            · rintro (h | h); exact absurd h.symm hkn; exact h
+            · exact Or.inr
+          simp only [this]
+      | false =>
+        simp only [fixedPairs]
+        rw [ihn]
+        by_cases hkn : k = n
+        · subst hkn
+          have hnone : f k = none := by
+            cases hf : f k with
+            | none => rfl
+            | some w => simp [hf] at hb
+          simp [hk, hnone]
+        · have : (n ∈ k :: ks) ↔ n ∈ ks := by
+            simp only [List.mem_cons]; constructor
+            · rintro (h | h); exact absurd h.symm hkn; exact h
+            · exact Or.inr
+          simp only [this]
+
+/-- what is fixed after the resize: the old fixed name-value pairs, as far as the names still exist -/
+def carried (f : String → Option α) (namesOld : List String) : String → Option α :=
+  fun n => if n ∈ namesOld then f n else none
+
+/-- C17 / C08 (`ReducedPopulationModel.set_n_ids`): if the number of parameters of the wrapped model changes,
+    the hidden state after the call describes exactly the old fixed name-value pairs restricted to the names
+    that still exist — whatever the history that led to the old state and whatever the new parameter list. -/
+theorem C17_resize_state (g : α) (f : String → Option α) (namesOld namesNew : List String) (st : St α)
+    (hnd : namesOld.Nodup) (hlen : namesNew.length ≠ namesOld.length)
+    (h : AllGood f namesOld (view namesOld g st)) :
+    AllGood (carried f namesOld) namesNew (view namesNew g (resize g namesOld namesNew st)) := by
+  unfold resize
+  rw [if_neg hlen]
+  cases st with
+  | none =>
+    -- nothing was fixed: f is none on every old name
+    have hfree : ∀ n ∈ namesOld, f n = none := by
+      intro n hn
+      have hz := lookupLast_fixedPairs f namesOld _ hnd h n
+      simp only [view] at hz
+      have hp : fixedPairs namesOld (namesOld.map (fun _ => (false, g))) = ([] : Req α) :=
+        fixedPairs_allFree g namesOld
+      rw [hp, lookupLast_nil, if_pos hn] at hz
+      cases hf : f n with
+      | none => rfl
+      | some w => simp [hf] at hz
+    have : carried f namesOld = fun _ => none := by
+      funext n; unfold carried; by_cases hn : n ∈ namesOld <;> simp [hn, hfree]
+    rw [this]
+    exact allGood_init g namesNew
+  | some c =>
+    have hstep := step_good namesNew g none (fun _ => none) (fixedPairs namesOld c) (allGood_init g namesNew)
+    have hnet : netStep (fun _ => none) (fixedPairs namesOld c) = carried f namesOld := by
+      funext n
+      simp only [netStep]
+      rw [lookupLast_fixedPairs f namesOld c hnd (by simpa [view] using h) n]
+      unfold carried
+      by_cases hn : n ∈ namesOld
+      · simp only [hn, if_true]; cases f n <;> rfl
+      · simp [hn]
+    rw [hnet] at hstep
+    exact hstep
+
+/-- … hence the reported names, the count and the number of fixed parameters after the resize -/
+theorem C17_resize_names (g : α) (f : String → Option α) (namesOld namesNew : List String) (st : St α)
+    (hnd : namesOld.Nodup) (hlen : namesNew.length ≠ namesOld.length)
+    (h : AllGood f namesOld (view namesOld g st)) :
+    let c' := view namesNew g (resize g namesOld namesNew st)
+    restrict c' namesNew = freeNames (carried f namesOld) namesNew ∧
+    nFree c' = (freeNames (carried f namesOld) namesNew).length ∧ nFixed c' + nFree c' = namesNew.length := by
+  have hg := C17_resize_state g f namesOld namesNew st hnd hlen h
+  refine ⟨?_, nFree_eq _ namesNew _ hg⟩
+  rw [restrict_eq_spec _ namesNew _ namesNew hg]
+  exact restrictSpec_self _ namesNew
+
+/-- the comparison must be made with the cached TOTAL: compared with the number of free parameters, a change
+    that removes exactly as many parameters as are fixed goes unnoticed and the old mask is kept for the new,
+    shorter list (witness of the seeded change C17-10: ID 1, ID 2, ID 3 and a fixed 'Std.', 3 → 2 individuals) -/
+theorem C17_resize_free_count_counterexample :
+    let old := ["ID 1", "ID 2", "ID 3", "Mean", "Std."]
+    let new := ["ID 1", "ID 2", "Mean", "Std."]
+    let st : St Nat := some [(false, 0), (false, 0), (false, 0), (false, 0), (true, 7)]
+    (view new 0 (resize 0 old new st)) = [(false, 0), (false, 0), (false, 0), (true, 7)] ∧
+    (view new 0 (resizeFreeCount 0 old new st)).length = 5 := by
+  decide
+end ChiModel.Reduced
